@@ -44,6 +44,14 @@ func genCase(t *rapid.T) arith.Case {
 			}
 		}
 	}
+	// an infinity left behind by an overflow still carries a coefficient and exponent; it is
+	// an exact operand of Round/Reduce and must raise nothing, also with rounding disabled
+	if (c.Op == "round" || c.Op == "reduce") && gen.Pick(t, 20, "junkinf") == 0 {
+		c.X = core.Dec{Form: 1, Neg: rapid.Bool().Draw(t, "infneg"), Coeff: gen.Digits(t, 40, "junk"), Exp: int32(rapid.IntRange(-200, 200).Draw(t, "junke"))}
+		if gen.Pick(t, 2, "p0") == 0 {
+			c.Ctx.P = 0
+		}
+	}
 	return c
 }
 
@@ -98,6 +106,13 @@ func check(c arith.Case, st *core.Stats) error {
 		}
 		if o.Err != nil || o.Res != want {
 			return fmt.Errorf("%v: flags %s err=%v, expected exactly %s for NaN operands", c, core.FlagStr(o.Res), o.Err, core.FlagStr(want))
+		}
+		return nil
+	}
+	if c.X.Form == 1 && (c.Op == "round" || c.Op == "reduce") {
+		st.NonTrivial("infinite-operand")
+		if o.Err != nil || o.Res != 0 || o.D.Form != apd.Infinite {
+			return fmt.Errorf("%v: got %s flags %s err=%v; an infinite operand is exact: expected the infinity and no conditions", c, core.Show(o.D), core.FlagStr(o.Res), o.Err)
 		}
 		return nil
 	}
